@@ -165,11 +165,11 @@ def nodeMap (sk : Skel) : List (Int × Int) := nodeMapOf (sortByParent sk.nodes)
 /-! ### validity of an SWC table -/
 
 /-- Specification: ids are `1..N` in row order; every row is a root with parent `-1` or its parent id is
-smaller than its own id and is the id of an earlier row. -/
+smaller than its own id and is the id of an earlier row (one of the first `k` rows). -/
 def SwcValid (s : List SwcRow) : Prop :=
   (∀ k (h : k < s.length), s[k].id = (k : Int) + 1) ∧
   (∀ k (h : k < s.length), s[k].parent = -1 ∨
-    (s[k].parent < s[k].id ∧ ∃ j, ∃ hj : j < k, (s[j]'(Nat.lt_trans hj h)).id = s[k].parent))
+    (s[k].parent < s[k].id ∧ s[k].parent ∈ (s.take k).map (·.id)))
 
 /-- Checker: walk the rows with the list of ids seen so far and the id expected next. -/
 def validFrom : List Int → Int → List SwcRow → Bool
